@@ -1046,12 +1046,17 @@ func runIn(w *world) []string {
 		p0 := w.spawn(0, func() { w.enqueue(0, w.objs[0]) })
 		waitFor(p0, stressBound)
 		w.waitEvent("w ", stressBound)
+		// hy > 0: a long hold (ms) — a Stop that gives up waiting after a while returns early
+		hold := time.Duration(c.t)*time.Millisecond + 3*time.Millisecond
+		if c.hy > 0 {
+			hold = time.Duration(c.hy) * time.Millisecond
+		}
 		s0 := w.spawn(100, func() { w.stop(0) })
 		w.waitEvent("tc 0", stressBound)
-		waitFor(s0, time.Duration(c.t)*time.Millisecond+3*time.Millisecond)
+		waitFor(s0, hold)
 		s1 := w.spawn(101, func() { w.stop(1) })
 		w.waitEvent("tc 1", stressBound)
-		waitFor(s1, time.Duration(c.t)*time.Millisecond+3*time.Millisecond)
+		waitFor(s1, hold)
 		close(gate)
 
 		return w.finish([]chan struct{}{p0}, []chan struct{}{s0, s1}, stressBound)
@@ -1878,6 +1883,10 @@ func main() {
 		rng, s := r.Rng.Fork()
 		forced = append(forced, cfg{kind: "two-stops", q: 1 + i%4, b: 1 + (i/4)%4, t: timeouts[i%3], tk: pickTk(rng) % 4, p: 1, o: 1, n: 1, ns: 2,
 			uq: b2i(i%3 == 0), seed: s})
+	}
+	for i := 0; i < 2; i++ {
+		_, s := r.Rng.Fork()
+		forced = append(forced, cfg{kind: "two-stops", q: 1 + i, b: 1, t: 5, p: 1, o: 1, n: 1, ns: 2, hy: 1200, seed: s})
 	}
 	// flushes: spanning several batches (n objects queued behind a held BatchWrite, batch size b < n), and pending
 	// while Stop clears `running` (open batch)
